@@ -50,8 +50,11 @@ class H:
         MySuper = type('MySuper', (super,), {})
         self.OBJ = {'plain': A(), 'b': ob_b, 'dp': ob_dp, 'super': super(B, ob_b),
                     'super-subclass': MySuper(B, ob_b), 'none': object()}
+        from zope.interface import implementedBy
         self.KEYS = [((R0,), P0, ''), ((R1,), P0, ''), ((R0,), P1, ''), ((R0,), P0, 'n'),
-                     ((R1,), P1, 'n'), ((Interface,), P0, ''), ((None,), P1, '')]
+                     ((R1,), P1, 'n'), ((Interface,), P0, ''), ((None,), P1, ''),
+                     # registered for a class (its specification), not an interface
+                     ((implementedBy(A),), P0, 'n')]
         self.KEYS2 = [((R0, R0), P0, ''), ((R1, R0), P0, ''), ((R0, R1), P1, 'n')]
         self.VALS = [Fac('f'), Fac('g'), Fac('nonefac', none=True)]
         self.P = {'P0': P0, 'P1': P1}
@@ -320,7 +323,7 @@ def replay(case):
 def run(ctx):
     from ..runner import finish
     maxsize = 2 if ctx.tier == 'quick' else 3
-    nkeys, nvals = 7, 3
+    nkeys, nvals = 8, 3
     items = []
     for size in range(0, maxsize + 1):
         for combo in itertools.combinations(range(nkeys), size):
